@@ -95,10 +95,10 @@ Definition compute_amp (ia fa cur ib fb : Z) : outcome Z :=
       do _ <- must (fits P64 d && (d <=? ia)); Ok (ia - d)
   else Ok fa.
 
-(* the factor part of the ramp acceptance test, AS THE CODE HAS IT (commands.rs: the decrease branch tests
-   future_a * MAX_AMP_CHANGE > current, i.e. inverted; repaired under C04). C18 only needs the range part. *)
+(* the factor part of the ramp acceptance test (commands.rs, after the C04 fix ef19acd: a decrease is rejected when
+   future_a * MAX_AMP_CHANGE < current). C18 only needs the range part; the factor part decides acceptance only. *)
 Definition ramp_factor_reject (mc c a : Z) : bool :=
-  ((a >? c) && (a >? c * mc)) || ((a <? c) && (a * mc >? c)).
+  ((a >? c) && (a >? c * mc)) || ((a <? c) && (a * mc <? c)).
 
 Definition amp_in_range (B : bounds) (a : Z) : bool := (b_min_amp B <=? a) && (a <=? b_max_amp B).
 
